@@ -15,4 +15,5 @@ func genAll(repo string) {
 	genPyramid(repo)
 	genImageBlk(repo)
 	genBlockParse(repo)
+	genLabelIndex(repo)
 }
